@@ -373,11 +373,20 @@ def box(d):
 # ------------------------------------------------------------------------------ client side
 @implementer(IServer)
 class VServer(object):
-    def __init__(self, serverid, rref, permitted=True):
+    def __init__(self, serverid, rref, permitted=True, salt=0):
         self.serverid, self.rref, self.permitted = serverid, rref, permitted
+        self._salt = salt
 
     def __repr__(self):
         return "<VServer %s>" % self.get_name()
+
+    # deterministic hashing: tahoe keeps IServer objects in sets and dict keys; the default
+    # id()-based hash would make their iteration order depend on memory addresses
+    def __hash__(self):
+        return int.from_bytes(self.serverid[:8], "big") ^ self._salt
+
+    def __eq__(self, other):
+        return self is other
 
     def __copy__(self):
         return self
@@ -532,6 +541,47 @@ class VClient(service.MultiService):
         return self.nodemaker.create_from_cap(write_uri, read_uri, deep_immutable=deep_immutable, name=name)
 
 
+# ------------------------------------------------------------------------------ deterministic hashing
+# tahoe keeps several kinds of objects in sets / as dict keys and iterates over them; with the
+# default id()-based hash the iteration order depends on memory addresses and an execution would
+# not be a pure function of its choice list.  From the harness (no source change) these classes get
+# a hash equal to a serial number handed out at first use; the serial restarts with every Grid.
+_serial = [0]
+
+
+def _serial_hash(self):
+    try:
+        return self.__dict__["_vt_serial"]
+    except KeyError:
+        _serial[0] += 1
+        self.__dict__["_vt_serial"] = _serial[0]
+        return _serial[0]
+
+
+def determinize():
+    import importlib
+    for modname, clsnames in [
+        ("allmydata.immutable.upload", ["ServerTracker"]),
+        ("allmydata.immutable.downloader.finder", ["RequestToken"]),
+        ("allmydata.immutable.downloader.share", ["Share", "CommonShare"]),
+        ("allmydata.immutable.downloader.fetcher", ["SegmentFetcher"]),
+        ("allmydata.immutable.layout", ["WriteBucketProxy", "ReadBucketProxy"]),
+        ("allmydata.mutable.layout", ["SDMFSlotWriteProxy", "MDMFSlotWriteProxy", "MDMFSlotReadProxy"]),
+        ("allmydata.mutable.filenode", ["MutableFileNode"]),
+    ]:
+        try:
+            m = importlib.import_module(modname)
+        except Exception:  # noqa
+            continue
+        for cn in clsnames:
+            cls = getattr(m, cn, None)
+            if cls is not None and "__hash__" not in cls.__dict__ and "__eq__" not in cls.__dict__:
+                cls.__hash__ = _serial_hash
+
+
+determinize()
+
+
 def server_id(si):
     return hashlib.sha1(b"vt-server-%d" % si).digest()
 
@@ -542,6 +592,8 @@ class Grid(object):
     def __init__(self, nservers, nclients=1, chooser=None, fault_kinds=(), split=False, client_kw=None,
                  server_kw=None, restore=None):
         _counter[0] += 1
+        boot.urandom.reset(boot.SEED, b"grid")      # same random stream for every execution
+        _serial[0] = 0
         self.base = "/dev/shm/vt-%d/g%d" % (os.getpid(), _counter[0])
         if os.path.exists(self.base):
             shutil.rmtree(self.base)
@@ -576,7 +628,7 @@ class Grid(object):
         c.conns[si] = conn
         rref = VRef(self.sched, self.fss[si], conn, "c2s")
         rref.version = self.fss[si].remote_get_version()
-        c.storage_broker.servers.append(VServer(self.ids[si], rref, permitted))
+        c.storage_broker.servers.append(VServer(self.ids[si], rref, permitted, salt=c.ci))
         return conn
 
     # ---------------------------------------------------------------- disk ground truth
